@@ -1,7 +1,8 @@
 #!/usr/bin/env python3
 """Writes MANIFEST.json from props.py (claimed checks) + the not-applicable/pending table below."""
 import json, subprocess
-from props import PROPS
+import os
+PROPS = {f[:-5]: json.load(open("props/"+f)) for f in sorted(os.listdir("props")) if f.endswith(".json")}
 
 ALL = ["C%02d" % i for i in range(1, 21)]
 PENDING_REASON = ("not claimed yet: the Rocq model, theorems and correspondence driver for this property "
